@@ -762,6 +762,98 @@ pub fn leaf_history(cfg: &RandCfg, rng: &mut StdRng, r: &mut Recorder, clients: 
     r.emit(json!({"op":"Snapshot","posts":posts}));
 }
 
+/// Directed-random multi-device histories (C03 / C04 / C05): c4 is a second device of c3's user (same Nostr identity, own leaf).
+/// Devices are added one by one, write, leave on their own, and the user is removed by an admin (every leaf must go).
+pub fn devices_history(cfg: &RandCfg, rng: &mut StdRng, r: &mut Recorder, clients: &[&str]) {
+    let mut w = World::new(cfg.mdk.clone());
+    for (i, c) in clients.iter().enumerate() {
+        let be = match cfg.backend.as_str() { "mixed" => if (i + cfg.seed as usize) % 2 == 0 { "mem" } else { "sql" }, x => x };
+        if *c == "c4" { w.add_client_sibling("c4", "c3", be); } else { w.add_client(c, be); }
+    }
+    r.emit(json!({"op":"Reset"}));
+    let g = "g1";
+    let user_admin = rng.gen_bool(0.4);          // is the two-device user an admin?
+    let admins: Vec<String> = if user_admin { vec!["c1".into(), "c3".into()] } else { vec!["c1".into()] };
+    r.emit(w.op_create("c1", g, &["c2".to_string(), "c3".to_string()], &admins));
+    let step = |w: &mut World, r: &mut Recorder, a: Value| -> Value { let v = exec_action(w, &a); r.emit(v.clone()); v };
+    let mut clock = 50u64;
+    let mut rk = 1u64;
+    let everyone = ["c1", "c2", "c3", "c4"];
+    let mut spread = |w: &mut World, r: &mut Recorder, e: &str, clock: u64, rng: &mut StdRng, skip: &str| {
+        let mut order: Vec<&str> = everyone.iter().cloned().filter(|x| *x != skip).collect();
+        order.shuffle(rng);
+        for c in order { let v = exec_action(w, &json!({"op":"Deliver","c":c,"e":e,"ts":clock,"rank":0})); r.emit(v); }
+    };
+    // the second device joins
+    clock += 1; rk += 1;
+    let adder = if user_admin && rng.gen_bool(0.5) { "c3" } else { "c1" };
+    let ad = step(&mut w, r, json!({"op":"Commit","c":adder,"g":g,"kind":"add","arg":["c4"],"ts":clock,"rank":rk}));
+    if ad["res"] != json!("Ok") { return; }
+    step(&mut w, r, json!({"op":"Merge","c":adder,"g":g}));
+    let ade = ad["e"].as_str().unwrap().to_string();
+    spread(&mut w, r, &ade, clock, rng, adder);
+    let wn = ad["welcomes"][0].as_str().unwrap().to_string();
+    // the welcome is also offered to the sibling device, which holds the same identity but not the key package
+    if rng.gen_bool(0.5) { step(&mut w, r, json!({"op":"Welcome","c":"c3","w":wn,"what":"process","fresh":false})); }
+    step(&mut w, r, json!({"op":"Welcome","c":"c4","w":wn,"what":"process","fresh":false}));
+    step(&mut w, r, json!({"op":"Welcome","c":"c4","w":wn,"what":"accept","fresh":false}));
+    // traffic from both devices and the others
+    for _ in 0..rng.gen_range(2..6) {
+        clock += 1;
+        let s = everyone[rng.gen_range(0..4)];
+        let v = step(&mut w, r, json!({"op":"Send","c":s,"g":g,"ts":clock,"rank":0,"mts":clock}));
+        if v["res"] == json!("Ok") { let e = v["e"].as_str().unwrap().to_string(); spread(&mut w, r, &e, clock, rng, ""); }
+        if rng.gen_bool(0.3) {
+            clock += 1; rk = rk % 15 + 1;
+            let who = if user_admin { ["c1", "c3", "c4"][rng.gen_range(0..3)] } else { "c1" };
+            let kd = ["rename", "self_update"][rng.gen_range(0..2)];
+            let v = step(&mut w, r, json!({"op":"Commit","c":who,"g":g,"kind":kd,"arg":format!("n{clock}"),"ts":clock,"rank":rk}));
+            if v["res"] == json!("Ok") { step(&mut w, r, json!({"op":"Merge","c":who,"g":g})); let e = v["e"].as_str().unwrap().to_string(); spread(&mut w, r, &e, clock, rng, who); }
+        }
+    }
+    // one device leaves on its own, or the whole user is removed by the admin
+    clock += 1; rk = rk % 15 + 1;
+    match rng.gen_range(0..3) {
+        0 => {
+            let dev = if rng.gen_bool(0.5) { "c3" } else { "c4" };
+            let lv = step(&mut w, r, json!({"op":"Leave","c":dev,"g":g,"ts":clock,"rank":0}));
+            if lv["res"] == json!("Ok") {
+                let p = lv["e"].as_str().unwrap().to_string();
+                let v = step(&mut w, r, json!({"op":"Deliver","c":"c1","e":p,"ts":clock,"rank":rk}));
+                let out = v["out"].as_str().unwrap_or("").to_string();
+                let mut outs: Vec<String> = if out.is_empty() { vec![] } else { vec![out] };
+                for c in ["c2", "c3", "c4"] {
+                    // (the sibling device of an admin user is an admin too and auto-commits: every delivery gets its own id rank)
+                    rk = rk % 15 + 1;
+                    let v2 = step(&mut w, r, json!({"op":"Deliver","c":c,"e":p,"ts":clock,"rank":rk}));
+                    if let Some(o) = v2["out"].as_str() { if !o.is_empty() { outs.push(o.to_string()); } }
+                }
+                outs.shuffle(rng);
+                for o in outs { spread(&mut w, r, &o, clock, rng, ""); }
+            }
+        }
+        _ => {
+            let rm = step(&mut w, r, json!({"op":"Commit","c":"c1","g":g,"kind":"remove","arg":["c3"],"ts":clock,"rank":rk}));
+            if rm["res"] == json!("Ok") {
+                step(&mut w, r, json!({"op":"Merge","c":"c1","g":g}));
+                let e = rm["e"].as_str().unwrap().to_string();
+                spread(&mut w, r, &e, clock, rng, "c1");
+            }
+        }
+    }
+    // later traffic: nobody who is out may read it
+    for _ in 0..rng.gen_range(1..4) {
+        clock += 1;
+        let s = ["c1", "c2", "c3", "c4"][rng.gen_range(0..4)];
+        let v = step(&mut w, r, json!({"op":"Send","c":s,"g":g,"ts":clock,"rank":0,"mts":clock}));
+        if v["res"] == json!("Ok") { let e = v["e"].as_str().unwrap().to_string(); spread(&mut w, r, &e, clock, rng, ""); }
+    }
+    let evs = w.ev_order.clone();
+    for e in &evs { for c in everyone { step(&mut w, r, json!({"op":"Deliver","c":c,"e":e,"ts":clock + 3,"rank":0})); } }
+    let posts: Vec<Value> = clients.iter().map(|c| json!({"c":c,"g":g,"post":w.project(c, g)})).collect();
+    r.emit(json!({"op":"Snapshot","posts":posts}));
+}
+
 pub fn run_random(cfg: &RandCfg, r: &mut Recorder) {
     let clients = ["c1", "c2", "c3", "c4"];
     let sql: Vec<&str> = match cfg.backend.as_str() {
@@ -769,13 +861,16 @@ pub fn run_random(cfg: &RandCfg, r: &mut Recorder) {
         "mixed" => clients.iter().enumerate().filter(|(i, _)| i % 2 == 1).map(|(_, c)| *c).collect(),
         _ => vec![],
     };
-    r.emit(meta(&clients, &["g1", "g2"], &sql, &cfg.mdk));
+    let mut m = meta(&clients, &["g1", "g2"], &sql, &cfg.mdk);
+    if cfg.profile == "devices" { m["users"] = json!({"c1":"c1","c2":"c2","c3":"c3","c4":"c3"}); }
+    r.emit(m);
     let mut rng = StdRng::seed_from_u64(cfg.seed);
     for _ in 0..cfg.histories {
         if cfg.profile == "welcome" { welcome_history(cfg, &mut rng, r, &clients); }
         else if cfg.profile == "fork" { fork_history(cfg, &mut rng, r, &clients); }
         else if cfg.profile == "props" { props_history(cfg, &mut rng, r, &clients); }
         else if cfg.profile == "leaf" { leaf_history(cfg, &mut rng, r, &clients); }
+        else if cfg.profile == "devices" { devices_history(cfg, &mut rng, r, &clients); }
         else { random_history(cfg, &mut rng, r, &clients); }
     }
 }
